@@ -136,14 +136,14 @@ def o02_7(tier):
                         ctx.ensure(ctx.And(ctx.zero(mat[r][ci]), ctx.zero(mat[r + 1][ci])), f"junction {j}, column {ci}: zero (interface does not end there)")
         return h
     out = []
-    for shape in ("tri_star", "double_y", "four_fold", "border_fan", "tri_star_ear", "five_fold", "six_fold"):
+    for shape in ("tri_star", "double_y", "four_fold", "border_fan", "border_fan4", "tri_star_ear", "five_fold", "six_fold"):
         for k in ((0, 1) if tier == "quick" else (0, 1, 2, 4)):
             if shape in ("five_fold", "six_fold") and k not in (0, 1):
                 continue
             for ig in ((False, True) if shape in ("four_fold", "tri_star", "five_fold", "six_fold") else (False,)):
                 out.append((f"{shape},k={k},ignore_four={ig}", mk(shape, k, ig)))
     # C07: the same tissues under other labellings, cycle starts, orientations and construction orders
-    for shape in ("tri_star", "double_y", "four_fold", "tri_star_ear"):
+    for shape in ("tri_star", "double_y", "four_fold", "tri_star_ear", "border_fan4"):
         for v in ((1, 2) if tier == "quick" else (1, 2, 3)):
             out.append((f"{shape}~v{v},k=1,ignore_four=False", mk(f"{shape}~v{v}", 1, False)))
     return out
